@@ -588,3 +588,53 @@ def build_task_from_command(ctx, rule):
                        ctx.construct(f, extra='existing task keeps waiting'),
                        'an existing task execution is not treated as waiting '
                        'exactly when its state is WAITING', ctx.loc(f, c))
+
+
+def policy_hooks_total(ctx, rule):
+    """Every configured policy gets its hook: Task._before_task_start and
+    Task._after_task_complete call the hook for each element of
+    build_policies(<the task's policies>, <workflow spec>) - no break,
+    return, continue or condition inside the loop.  The policies are
+    independent (the concurrency limit is set by the last one built); a
+    loop that stops once an earlier policy delayed or paused the task
+    leaves the later ones unapplied for good, because the continuation
+    does not run the hooks again."""
+    prog = ctx.prog
+    n = 0
+    for meth, hook in (('_before_task_start', 'before_task_start'),
+                       ('_after_task_complete', 'after_task_complete')):
+        f = prog.func('mistral.engine.tasks.Task.' + meth)
+        cfg = ctx.cfg(f)
+        loops = [x for x in own_nodes(f.node) if isinstance(x, ast.For)]
+        calls = [(nd, c) for nd, c in cfg.calls(
+            lambda c: U.call_name(c) == hook)]
+        if len(loops) != 1 or len(calls) != 1:
+            raise AnalysisError('policy hooks: loop in %s not found' % meth)
+        lp = loops[0]
+        it = U.canon_expr(f.node, lp.iter)
+        src_ok = isinstance(it, ast.Call) and \
+            U.call_name(it) == 'build_policies' and len(it.args) >= 2 and \
+            U.phas(it.args[0], 'self.task_spec.get_policies()') and \
+            norm(it.args[1]) == 'self.wf_spec'
+        rule.check(src_ok, ctx.construct(f, extra='all configured policies'),
+                   'the hooks do not run over build_policies(<task '
+                   'policies>, <workflow spec>) (task-level policies and '
+                   'task-defaults)', ctx.loc(f, lp))
+        nd, c = calls[0]
+        xfer = [x for b in lp.body for x in ast.walk(b)
+                if isinstance(x, (ast.Break, ast.Return, ast.Continue,
+                                  ast.Raise))]
+        atoms = U.guard_atoms(cfg, nd)
+        inside = any(c is x for b in lp.body for x in ast.walk(b))
+        rule.check(inside and not xfer and not atoms and
+                   c.args and norm(c.args[0]) == 'self' and
+                   norm(c.func.value) == norm(lp.target),
+                   ctx.construct(f, c, extra='for every policy'),
+                   '%s is not called for every configured policy (%s): a '
+                   'policy that is skipped never takes effect - e.g. the '
+                   'concurrency limit of a with-items task that also has '
+                   'wait-before' % (hook, [norm(x) for x in xfer] or
+                                    [(norm(a), t) for a, t in atoms]),
+                   ctx.loc(f, c))
+        n += 1
+    return n
